@@ -112,6 +112,12 @@ func (n *Net) Snapshot(i int, dir string) (*Node, error) {
 	if !src.Real {
 		return nil, fmt.Errorf("node %d is not real", i)
 	}
+	return n.SnapshotNode(src, dir)
+}
+
+// SnapshotNode is Snapshot for any node object (also a detached one).
+func (n *Net) SnapshotNode(src *Node, dir string) (*Node, error) {
+	i := src.Idx
 	nd := &Node{Idx: i, Real: true, Key: src.Key, Addr: src.Addr, Shown: map[int64]Commit{}}
 	nd.SignFile = filepath.Join(dir, "priv.json")
 	nd.WALDir = filepath.Join(dir, "wal")
